@@ -195,6 +195,8 @@ class Sym:
             env = {'__fn__': f['id']}
             for i, a in enumerate(args):
                 env[('p', i)] = a
+                if i < len(f.get('params', [])) and f['params'][i].get('name'):
+                    env[('n', f['params'][i]['name'])] = a
             if this is not None:
                 env['this'] = this
             if captures:
@@ -405,6 +407,7 @@ class Sym:
                                 if cls in self.F.rec and isinstance(v, tuple):
                                     v = s2.new_obj(cls, origin=('copy', v))
                             s2.env[('v', var['id'])] = v
+                            s2.env[('n', var['name'])] = v
                             new.append(s2)
                     else:
                         s1.env[('v', var['id'])] = ('uninit', var['name'])
@@ -1375,6 +1378,11 @@ class Sym:
                 if len(r) != 1:
                     raise Unsupported('branching capture initializer')
                 caps[c.get('name', '?')] = r[0][1]
+        # a generic lambda with a capture default lists no captures until it is instantiated: what its body names is what the
+        # enclosing function has in scope where the lambda is written (locals, parameters, the enclosing lambda's own captures)
+        for key, val in list(st.env.items()):
+            if isinstance(key, tuple) and key[0] in ('n', 'cap') and key[1] not in caps:
+                caps[key[1]] = val
         o = st.new_obj(e['cls'], origin=('lambda',))
         st.heap[o[1]].tag = caps
         return [(st, o)]
@@ -1884,6 +1892,12 @@ class Sym:
                 s2 = st.fork()
                 s2.conds.append((('found', recv, key, el), True))
                 outs.append((s2, ('addr', el)))
+            if _preexisting(recv, st):
+                # a table of an object that existed before the call holds elements this evaluation knows nothing about
+                s2 = st.fork()
+                el = ('elem', recv)
+                s2.conds.append((('found', recv, key, el), True))
+                outs.append((s2, ('addr', el)))
             st.conds.append((('found', recv, key, None), False))
             outs.append((st, NULL))
             return outs
@@ -1964,6 +1978,15 @@ def int_preserving(F, src, dst):
     # a change of signedness at the same width re-reads the same bits (sizes and differences are converted both ways all over
     # the library and are never negative where it matters): only a loss of bits is reported
     return bb >= ba
+
+
+def _preexisting(loc, st):
+    """is the designated storage part of an object that existed before the evaluation started (reached from `this`, a parameter
+    or a global), as opposed to an object the evaluation itself created?"""
+    t = loc
+    while isinstance(t, tuple) and t and t[0] in ('fld', 'deref', 'addr', 'index', 'castto'):
+        t = t[2] if t[0] == 'castto' else t[1]
+    return isinstance(t, tuple) and t[:1] in (('sym',), ('param',), ('global',))
 
 
 def _nested_labels(stmt):
